@@ -33,7 +33,7 @@ def _digest(x):
     return hashlib.sha1(json.dumps(x, sort_keys=True).encode()).hexdigest()[:16]
 
 
-def edit_campaign(ctx, reports=0.0, analyses=None, sim=True, graph=True, mc=True):
+def edit_campaign(ctx, reports=0.0, analyses=None, sim=True, graph=True, mc=True, repo=True):
     res = Result()
     q = ctx.quick
     if mc:
@@ -68,6 +68,13 @@ def edit_campaign(ctx, reports=0.0, analyses=None, sim=True, graph=True, mc=True
     finally:
         rec.uninstall()
     traces = rec.dump()
+    if repo:
+        # every call the repository's own test-suite makes, recorded from a scratch copy of /repo/tests
+        import repotests
+        rt = repotests.for_checks()
+        traces += rt["traces"]
+        res.extra["repository_suite"] = {"pytest": rt["pytest"], "traces": len(rt["traces"]),
+                                         "calls": sum(len(t["events"]) for t in rt["traces"])}
     res.add_traces(traces)
     verd, stat, states = tlc.validate("TraceEdit.tla", "TraceEdit.cfg", tlc.split(traces, tlc.NCPU), ctx.work)
     res.verd, res.stat = verd, stat
